@@ -1,10 +1,210 @@
-"""placeholder while building: NF of all areas (temporary survey module)"""
-from . import nf_common
+"""C20 — RcDom materialises sink operations faithfully (DESIGN 4.C20)."""
+import re
 
+from lib import machine as mc
+from lib.ast import walk
+from lib.flat import show
+from lib.mir import AnchorMissing
+from . import nf_common, nfq
+
+MANIFEST = {
+    "text": "Pairing and dependence rules on rcdom: every function that mutates a children vector also writes the parent link of the affected children on the same paths (parent link <=> child list); every search loop that stores its candidate tests the candidate (not an unrelated value); text merging precedes node creation; plus equality of every rcdom function (TreeSink impl, Serialize, Drop, helpers) with its reviewed normal form.",
+    "note": "Decides R20.1-R20.4. Not decided: equality with an abstract DOM for arbitrary call sequences; clone_with_subtree is recursive in the depth of the cloned subtree (recorded under C04).",
+    "technique": "pairing / def-use dependence rules over the syntax tree and function normal forms",
+}
 LEVEL = "other"
-MANIFEST = {"not_applicable": "under construction"}
+EXPLANATION = """
+R20.1 parent link <=> child list: mutators of `children` pair with `parent` writes in the same function; R20.2 text
+is merged into a preceding Text node before a new node is created (append and append_before_sibling); R20.3 in a
+find-first loop the guarding condition depends on the loop's candidate; R20.4 reviewed normal forms of all of
+rcdom (36 functions).
+"""
+ASSUMPTIONS = ["Rc/Weak/RefCell/Vec behave as documented"]
+AREA = "rcdom"
+MUTATORS = ("push", "insert", "remove", "extend", "retain", "truncate", "clear", "pop", "drain", "swap_remove", "append")
+
+
+def r20_1(ctx):
+    cur = nf_common.area_current(ctx, AREA)
+    n = 0
+    for key, v in sorted(cur.items()):
+        fname = key.rsplit("::", 1)[-1]
+        if v["kind"] != "paths":
+            continue
+        if "[Drop]" in key or fname in ("new", "fmt"):
+            continue
+        pcs = mc.from_json({key: v["cells"]})[key]
+        mutates = False
+        bad = None
+        for pc in nfq.feasible(pcs):
+            acts = pc["actions"]
+            muts = [(a, args) for a, args in acts if (re.search(r"\.children\.(%s)$" % "|".join(MUTATORS), a) or a.startswith("assign") and a.endswith(".children"))]
+            # a node constructed with a non-empty child list
+            built = [x for a, args in acts for x in map(str, args) if re.search(r"children:|Node\(|Self\(", x) and False]
+            if not muts:
+                continue
+            mutates = True
+            pw = [a for a, _ in acts if re.search(r"\.parent\.(set|replace|take)$", a)]
+            if not pw:
+                bad = muts[0][0]
+        if mutates:
+            n += 1
+            ctx.ob("R20.1", "children-mutation-pairs-with-parent-write/" + fname, bad is None,
+                   "%s changes a child list on a path that writes no parent link: the affected nodes' parent pointers no longer name the node whose child list contains them" % bad if bad
+                   else "every path that changes a child list also writes the parent link of the affected children", "rcdom " + fname)
+    # clone: a copied node must not inherit the original's parent link
+    it = [x for x in ctx.ast.crates["markup5ever_rcdom"] if x["k"] == "Fn" and x["name"] == "clone_with_subtree" and x.get("body") is not None]
+    if it:
+        n += 1
+        txt = show_body(it[0]["body"])
+        copies_parent = bool(re.search(r"parent:Cell::new\(self\.parent\(\)\)|parent:.{0,20}self\.parent", txt))
+        ctx.ob("R20.1", "clone-does-not-copy-parent-link/clone_with_subtree", not copies_parent,
+               "the clone is constructed with the *original's* parent link: the copy claims a parent whose child list does not contain it" if copies_parent else "clones start without a parent and are linked by whoever inserts them")
+    ctx.floor("R20.1", "child-list-mutators", n, 5)
+
+
+def show_body(body):
+    from lib.nf import tree_form
+
+    return tree_form({"sig": {"params": []}, "body": body}).replace(" ", "")
+
+
+def _deps(expr, env):
+    """variable names an expression depends on (through let-bound names)"""
+    out = set()
+
+    def f(n):
+        if n.get("k") == "Path":
+            p = n["path"]
+            if p in env:
+                out.update(env[p])
+            else:
+                out.add(p.split("::")[0])
+
+    walk(expr, f)
+    return out
+
+
+def _pat_vars(p, out):
+    k = p.get("k")
+    if k == "PIdent":
+        out.append(p["name"])
+    for v in p.values():
+        if isinstance(v, dict):
+            _pat_vars(v, out)
+        elif isinstance(v, list):
+            for x in v:
+                if isinstance(x, dict):
+                    _pat_vars(x, out)
+
+
+def r20_3(ctx):
+    """find-first loops: the condition guarding `result = Some(candidate)` depends on the candidate"""
+    n = 0
+    for it in ctx.ast.crates["markup5ever_rcdom"]:
+        if it["k"] != "Fn" or it.get("body") is None:
+            continue
+        loops = []
+
+        def f(nd):
+            if nd.get("k") in ("While", "For"):
+                loops.append(nd)
+
+        walk(it["body"], f)
+        for lp in loops:
+            cand = []
+            if lp["k"] == "While" and lp["cond"].get("k") == "LetCond":
+                _pat_vars(lp["cond"]["pat"], cand)
+            elif lp["k"] == "For":
+                _pat_vars(lp["pat"], cand)
+            if not cand:
+                continue
+            # walk the body in order, tracking let-bound dependencies and the conditions in force
+            found = []
+
+            def visit(stmts, env, conds):
+                for s in stmts:
+                    if s["k"] == "Let" and s.get("init") is not None:
+                        vs = []
+                        _pat_vars(s["pat"], vs)
+                        d = _deps(s["init"], env)
+                        for v in vs:
+                            env[v] = d
+                        if s.get("else") is not None:
+                            conds = conds + [d]
+                    elif s["k"] == "ExprStmt":
+                        ve(s["e"], env, conds)
+
+            def ve(e, env, conds):
+                k = e.get("k")
+                if k == "If":
+                    c = e["cond"]
+                    d = _deps(c["e"], env) if c.get("k") == "LetCond" else _deps(c, env)
+                    env2 = dict(env)
+                    if c.get("k") == "LetCond":
+                        vs = []
+                        _pat_vars(c["pat"], vs)
+                        for v in vs:
+                            env2[v] = d
+                    visit(e["then"], env2, conds + [d])
+                    if e.get("else"):
+                        ve(e["else"], dict(env), conds + [d])
+                elif k == "Block":
+                    visit(e["body"], dict(env), conds)
+                elif k == "Match":
+                    d = _deps(e["e"], env)
+                    for a in e["arms"]:
+                        env2 = dict(env)
+                        vs = []
+                        _pat_vars(a["pat"], vs)
+                        for v in vs:
+                            env2[v] = d
+                        ve(a["body"], env2, conds + [d])
+                elif k == "Assign":
+                    rd = _deps(e["rhs"], env)
+                    if set(cand) & rd and e["rhs"].get("k") == "Call" and show(e["rhs"]["f"]) == "Some":
+                        found.append((show(e["lhs"]), conds))
+
+            visit(lp["body"], {c: {c} for c in cand}, [])
+            for lhs, conds in found:
+                n += 1
+                ok = (not conds) or any(set(cand) & d for d in conds)
+                ctx.ob("R20.3", "find-first-tests-its-candidate/%s/%s" % (it["name"], lhs), ok,
+                       "the loop stores its candidate into `%s` under conditions that depend only on %s, never on the candidate `%s`: the search tests the same unrelated value on every iteration" % (lhs, sorted(set().union(*conds)), cand[0])
+                       if not ok else "the guarding condition depends on the candidate", "rcdom " + it["name"])
+    ctx.floor("R20.3", "find-first-loops", n, 1)
+
+
+def r20_2(ctx):
+    for fname in ("[TreeSink]::append", "[TreeSink]::append_before_sibling"):
+        key, pcs = nfq.cells(ctx, AREA, "::RcDom" + fname)
+        bad = None
+        n = 0
+        for pc in nfq.feasible(pcs):
+            t = nfq.texts(pc)
+            creates = [i for i, x in enumerate(t) if "Text(" in x and ("call new(" in x or "new(Text" in x)]
+            is_text = any(v and "AppendText" in g for g, v in pc["guards"].items())
+            if not (creates and is_text):
+                continue
+            n += 1
+            merges = [i for i, x in enumerate(t) if x.startswith("call append_to_existing_text(")]
+            has_prev = any(v and ("last() matches Some" in g) for g, v in pc["guards"].items()) or any((not v) and "matches (AppendText(_),0)" in g for g, v in pc["guards"].items())
+            if has_prev and not (merges and merges[0] < creates[0]):
+                bad = t
+        ctx.ob("R20.2", "text-merge-before-create/" + fname.split("::")[-1], bad is None and n > 0,
+               "a Text node is created although a preceding sibling exists and no merge was attempted" if bad else "%d text-creating paths try append_to_existing_text first whenever a previous sibling exists" % n)
+    key, pcs = nfq.cells(ctx, AREA, "[TreeSink]::add_attrs_if_missing")
+    txt = " ".join(" ".join(nfq.texts(pc)) for pc in pcs)
+    ok = "existing_names" in txt or ("contains(a1.name)" in txt and "extend" in txt)
+    ctx.ob("R20.2", "add_attrs_if_missing-filters-by-name", "contains(a1.name)" in txt and ".extend" in txt, "new attributes are filtered by the set of existing *names* and appended (nothing is overwritten)")
 
 
 def run(ctx):
-    for a in nf_common.AREAS:
-        ctx.guard("NF", a, lambda a=a: nf_common.nf_rule(ctx, "NF", a))
+    ctx.rule("R20.1", "every function that mutates a children vector writes the parent link of the affected children; a clone does not inherit the original's parent link")
+    ctx.rule("R20.2", "text merging precedes Text-node creation; add_attrs_if_missing filters by existing names and never overwrites")
+    ctx.rule("R20.3", "in a find-first loop the condition guarding `result = Some(candidate)` depends on the candidate")
+    ctx.rule("R20.4", "normal forms of all rcdom functions equal the reviewed reference")
+    ctx.guard("R20.1", "pairing", lambda: r20_1(ctx))
+    ctx.guard("R20.2", "merge", lambda: r20_2(ctx))
+    ctx.guard("R20.3", "search", lambda: r20_3(ctx))
+    ctx.guard("R20.4", "nf", lambda: nf_common.nf_rule(ctx, "R20.4", AREA, floor=34))
